@@ -13,8 +13,9 @@ LEVEL = "exploration"
 RULE = (
     "Part stable_timestep: Hypothesis draws a simulator class (2-D NS, 3-D NS, passive 2-D/3-D scalar/vector), grid shape, "
     "precision, x_range, viscosity over 8 decades (1e-6..1e2, so nu/dx^2 spans >> 1), CFL in (0,2], prefactor in (0,1] and a "
-    "velocity field in {identically zero, constant, single spike up to 2^20, noise, mixed}; compute_stable_timestep is called "
-    "on the real simulator: dt finite and > 0; dt(p) = p*dt(1) within 4 ulp; dt(1)*max_cells sum_c|u_c|/dx <= CFL(1+32eps); "
+    "velocity field in {identically zero, constant, single spike up to 2^20, noise, mixed}, followed by 0-3 further velocity "
+    "fields written into the SAME simulator (optionally after a time_step); compute_stable_timestep is called after every "
+    "overwrite on the real simulator: dt finite and > 0; dt(p) = p*dt(1) within 4 ulp; dt(1)*max_cells sum_c|u_c|/dx <= CFL(1+32eps); "
     "nu*dt(1)/dx^2 <= 0.9/(2d)(1+32eps); velocity array bit-identical afterwards. Part maximum_principle: for drawn "
     "lambda in (0, 0.9/(2d)] and any field the public diffusion time-step kernels (2-D, 3-D scalar, 3-D vector) are run: every "
     "interior value stays within [min,max] of its 2d+1 input neighbourhood (8 eps slack), global extrema do not grow, ring cells "
@@ -41,6 +42,11 @@ def _dt_strategy(tier, kind):
             "sim": kind, "shape": draw(gen.grid_shape(dim, 5, 40 if dim == 2 else 10)), "dtype": draw(gen.precisions),
             "x_range": draw(gen.nice_or_log(1e-2, 1e2)), "nu": draw(gen.log_uniform(1e-6, 1e2)),
             "cfl": draw(gen.floats(0.01, 2.0, 32)), "prefac": draw(gen.floats(0.01, 1.0, 32)), "velocity": vel, "vkind": vk,
+            # history on the SAME simulator object: the velocity is overwritten between queries (as every flow step does),
+            # optionally with a time step in between
+            "later": draw(st.lists(st.fixed_dictionaries({
+                "velocity": gen.vector_field_spec(dim, kinds=["zero", "constant", "spikes", "noise", "mixed"], max_mag_exp=12),
+                "step_first": st.booleans()}), min_size=0, max_size=3)),
         }
 
     return case()
@@ -62,28 +68,37 @@ def _dt_body(case, ctx):
             sim = sps.UnboundedNavierStokesFlowSimulator3D(penalty_zone_width=0, **kw)
         else:
             sim = sps.PassiveTransportFlowSimulator(grid_dim=dim, field_type="vector" if kind.endswith("vector") else "scalar", **kw)
-    sim.velocity_field[...] = gen.build_vector_field(case["velocity"], shape, real_t)
-    u0 = sim.velocity_field.copy()
-    with ctx.repo_call("compute_stable_timestep"):
-        dt1 = sim.compute_stable_timestep()
-        dtp = sim.compute_stable_timestep(dt_prefac=case["prefac"])
-    if sim.velocity_field.tobytes() != u0.tobytes():
-        raise Violation("compute_stable_timestep modified the velocity field")
-    dt1f, dtpf = float(dt1), float(dtp)
-    if not (np.isfinite(dt1f) and dt1f > 0 and np.isfinite(dtpf) and dtpf > 0):
-        raise Violation(f"stable time step not finite/positive: dt(1)={dt1!r} dt(p)={dtp!r} (nu {case['nu']:.3g}, {case['vkind']} velocity)")
-    if abs(dtpf - case["prefac"] * dt1f) > 4 * eps * abs(case["prefac"] * dt1f):
-        raise Violation(f"time step not linear in the prefactor: dt({case['prefac']})={dtp!r}, p*dt(1)={case['prefac'] * dt1f!r}")
+    rounds = [{"velocity": case["velocity"], "step_first": False}] + list(case.get("later", []))
     dx = float(sim.dx)
-    umax = float(np.max(np.sum(np.abs(u0.astype(np.float64)), axis=0)))
-    adv = dt1f * umax / dx
-    if adv > case["cfl"] * (1 + 32 * eps):
-        raise Violation(f"advective limit exceeded: dt*max|u|_1/dx = {adv!r} > CFL {case['cfl']!r} ({kind}, {case['dtype']})")
-    dif = case["nu"] * dt1f / dx**2
     lim = 0.9 / (2 * dim)
-    if dif > lim * (1 + 32 * eps):
-        raise Violation(f"diffusive limit exceeded: nu*dt/dx^2 = {dif!r} > 0.9/(2d) = {lim!r} by a factor {dif / lim:.6f} "
-                        f"(nu {case['nu']:.6g}, dx {dx:.6g}, {kind}, {case['dtype']})")
+    dif = 0.0
+    umax = 0.0
+    for ri, rnd in enumerate(rounds):
+        if rnd["step_first"] and ri > 0:
+            # advance the simulator (changes time and, for Navier-Stokes, recomputes the velocity) before the next query
+            with ctx.repo_call("time_step"):
+                sim.time_step(dt=float(dt1f) * 0.5)
+        sim.velocity_field[...] = gen.build_vector_field(rnd["velocity"], shape, real_t)
+        u0 = sim.velocity_field.copy()
+        with ctx.repo_call("compute_stable_timestep"):
+            dt1 = sim.compute_stable_timestep()
+            dtp = sim.compute_stable_timestep(dt_prefac=case["prefac"])
+        if sim.velocity_field.tobytes() != u0.tobytes():
+            raise Violation("compute_stable_timestep modified the velocity field")
+        dt1f, dtpf = float(dt1), float(dtp)
+        where = f"(query {ri + 1} of {len(rounds)} on the same simulator, nu {case['nu']:.3g}, {kind}, {case['dtype']})"
+        if not (np.isfinite(dt1f) and dt1f > 0 and np.isfinite(dtpf) and dtpf > 0):
+            raise Violation(f"stable time step not finite/positive: dt(1)={dt1!r} dt(p)={dtp!r} {where}")
+        if abs(dtpf - case["prefac"] * dt1f) > 4 * eps * abs(case["prefac"] * dt1f):
+            raise Violation(f"time step not linear in the prefactor: dt({case['prefac']})={dtp!r}, p*dt(1)={case['prefac'] * dt1f!r} {where}")
+        umax = float(np.max(np.sum(np.abs(u0.astype(np.float64)), axis=0)))
+        adv = dt1f * umax / dx
+        if adv > case["cfl"] * (1 + 32 * eps):
+            raise Violation(f"advective limit exceeded: dt*max|u|_1/dx = {adv!r} > CFL {case['cfl']!r} {where}")
+        dif = case["nu"] * dt1f / dx**2
+        if dif > lim * (1 + 32 * eps):
+            raise Violation(f"diffusive limit exceeded: nu*dt/dx^2 = {dif!r} > 0.9/(2d) = {lim!r} by a factor {dif / lim:.6f} {where}")
+    ctx.note(labels=[f"queries_{len(rounds)}"])
     viscous_active = dif > 0.5 * lim
     ctx.note(nontrivial=(viscous_active or umax > 0) and len(set(shape)) > 1,
              labels=[kind, case["dtype"], "velocity_" + case["vkind"], "viscous_limit_active" if viscous_active else "advective_limit_active"])
